@@ -143,7 +143,7 @@ class Unit:
         def fold(mt):
             self.rewrite_counts['R11'] = self.rewrite_counts.get('R11', 0) + 1
             return '%d_%s' % (int(mt.group(1).replace('_', '')) ** int(mt.group(3)), mt.group(2))
-        text = re.sub(r'\b(\d[\d_]*?)_(u8|u16|u32|u64|usize)\.pow\((\d+)\)', fold, text)
+        text = re.sub(r'\b(\d[\d_]*?)_?(u8|u16|u32|u64|usize)\.pow\((\d+)\)', fold, text)
         for rid, rx, repl in self.rewrites:
             def sub(mt, repl=repl, rid=rid):
                 new = mt.expand(repl)
